@@ -2172,7 +2172,9 @@ func crashRunPower(c *Ctx, e *crashEnv, fixDir, fixZero bool) error {
 	wls := []crashWorkload{
 		{"sync-novlog", crashSpec{Sync: true, NCommits: 140, MemSize: 8 << 10, DelEvery: 6, Snap: true}, true, false},
 		{"sync-vlog", crashSpec{Sync: true, NCommits: 140, MemSize: 8 << 10, BigEvery: 3, BigSize: 300, DelEvery: 5, Snap: true}, true, false},
-		{"sync-batch-compact", crashSpec{Sync: true, Batch: true, NCommits: 300, MemSize: 8 << 10, NumComp: 2, DelEvery: 5, Snap: true}, false, false},
+		// batched requests (WriteBatch commits asynchronously: several requests per writer call), some
+		// with value-log values and some without: every request of a call must be durable at its ack
+		{"sync-batch-compact", crashSpec{Sync: true, Batch: true, NCommits: 300, MemSize: 8 << 10, NumComp: 2, BigEvery: 3, BigSize: 300, DelEvery: 5, Snap: true}, false, false},
 		{"sync-compact", crashSpec{Sync: true, NCommits: 220, MemSize: 8 << 10, BigEvery: 4, BigSize: 300, CompactEvery: 45, Snap: true}, true, false},
 	}
 	// ground truth: the system calls of the workload children (strace.go)
